@@ -4,6 +4,7 @@ import ast
 from .. import spec
 from ..astutil import norm, const, NO, compare, tail, names
 from ..index import AnalysisError, walk_own, NotConst
+from ..absint import Explorer, SpecObj, UNKNOWN
 from .common import (site, key, calls_to, method_calls, nodes_with, guard_check, stores_to_name)
 from .c05 import _reraises
 
@@ -311,37 +312,77 @@ def r3(ctx):
             p, hits = guard_check(f, nodes_with(f, c), rc, kills=hd)
             ctx.check("C16.R3", p is None, key(f, "%s|%s" % (nm, kind)), site(f, c), "in the %s loop %s" % (kind, why), "%s in %s loop" % (nm, kind), path=p and g.fmt_path(p))
         ctx.check("C16.R3", "vars(" in norm(loop.iter) and ".items()" in norm(loop.iter), key(f, "iterates-namespace|" + kind), site(f, loop), "the %s loop does not iterate the parsed namespace" % kind, "vars(ns).items()")
-    # config file location precedence
+    # config file location precedence -- evaluated from the entry of load_config: whichever of the command line, GUNICORN_CMD_ARGS
+    # and the default location name a file, exactly one file is loaded, chosen as cli > env > default
     files = [c for k, c in sites if k == "file"]
-    if len(files) >= 3:
-        def ns_kind(e):
-            if isinstance(e, ast.Attribute) and e.attr == "config" and isinstance(e.value, ast.Name):
-                for st in stores_to_name(f, e.value.id):
-                    if isinstance(st.ast, ast.Assign):
-                        v = norm(st.ast.value)
-                        if "get_cmd_args_from_env" in v:
-                            return "env"
-                        if v.endswith("parse_args()"):
-                            return "cli"
-            return None
-        kinds3 = [ns_kind(x.args[0]) for x in files]
-        by = dict((k, x) for k, x in zip(kinds3, files))
-        nodes3 = dict((k, nodes_with(f, x)) for k, x in by.items())
-        complete = set(kinds3) == {"cli", "env", None} and len(files) == 3
-        excl = complete and not any(b in g.reachable([a], follow_exc=False) for ka in nodes3 for kb in nodes3 if ka != kb for a in nodes3[ka] for b in nodes3[kb])
-        # precedence: the env file is loaded only when the CLI named none; the default only when neither did
-        prec = False
-        if complete:
-            def cfgtest(kind):
-                return [t for t in g.tests() if ns_kind(t.ast) == kind]
-            tc, te = cfgtest("cli"), cfgtest("env")
-            prec = bool(tc) and bool(te) and all(n not in g.reachable([(t, "true")], follow_exc=False) for t in tc for n in nodes3["env"] + nodes3[None]) and \
-                all(n not in g.reachable([(t, "true")], follow_exc=False) for t in te for n in nodes3[None]) and \
-                all(n in g.reachable([(t, "true")], follow_exc=False) for t in tc for n in nodes3["cli"]) and all(n in g.reachable([(t, "true")], follow_exc=False) for t in te for n in nodes3["env"])
-        ctx.check("C16.R3", complete and excl and prec, key(f, "file-location"), site(f, files[0]), "the configuration file location is not chosen as CLI -c > GUNICORN_CMD_ARGS -c > ./gunicorn.conf.py (exactly one file)",
-                  "one file: cli > env > default")
-    else:
-        ctx.bad("C16.R3", key(f, "file-location"), site(f), "expected three alternative config-file loads (cli, env, default), found %d" % len(files))
+    ctx.need(files, "C16.R3: load_config loads no configuration file")
+
+    def atom_of(e):
+        if isinstance(e, ast.Call) and isinstance(e.func, ast.Attribute) and e.func.attr == "parse_args":
+            return "ENV_NS" if any("get_cmd_args_from_env" in norm(a) for a in e.args) else ("CLI_NS" if not e.args else None)
+        if isinstance(e, ast.Call) and (repo.call_target(f.module, f, e) or "").endswith("get_default_config_file"):
+            return "DEFAULT_LOCATION"
+        return None
+
+    def make_probe(c):
+        return lambda ex, env: ex.ev(c.args[0], env) if c.args else UNKNOWN
+    probes = {nn.id: ("load@%d" % i, make_probe(c)) for i, c in enumerate(files) for nn in nodes_with(f, c)}
+    rows = []
+    for cli in (None, "", "cli.conf.py"):
+        for envf in (None, "", "env.conf.py"):
+            for dflt in (None, "gunicorn.conf.py"):
+                want = cli or envf or dflt
+                env = {"CLI_NS": SpecObj(config=cli, args=()), "ENV_NS": SpecObj(config=envf, args=()), "DEFAULT_LOCATION": dflt}
+                outs = Explorer(f, atom_of=atom_of).run(g.entry, env, probes=probes)
+                got = set()
+                for o in outs:
+                    if o.kind != "return":
+                        continue
+                    got.add(tuple(sorted(str(v) for nm, v in o.events if isinstance(nm, str) and nm.startswith("load@"))))
+                need = {(str(want),)} if want else {()}
+                rows.append({"cli -c": repr(cli), "GUNICORN_CMD_ARGS -c": repr(envf), "default file": repr(dflt), "files loaded": sorted(map(list, got)), "required": sorted(map(list, need))})
+                ctx.check("C16.R3", got == need, key(f, "file-location|%r|%r|%r" % (cli, envf, dflt)), site(f, files[0]),
+                          "with -c %r on the command line, -c %r in GUNICORN_CMD_ARGS and default file %r, load_config loads %s; required %s (one file: cli > env > default)" % (
+                              cli, envf, dflt, sorted(map(list, got)), sorted(map(list, need))), "one file: cli > env > default")
+    ctx.table("C16.R3 configuration file location", rows)
+    # what each mapping source applies -- evaluated: every pair of the framework mapping and every *setting* of the file's
+    # namespace goes through cfg.set, None included (there, `name = None` is a mention of the setting; only argparse
+    # namespaces use None for "not given"); names of the file that are not settings are ignored
+    fl = ctx.fn(repo.func(APP + ".Application.load_config_from_module_name_or_filename"))
+
+    def run_source(fn, src_key, mapping, extra_atom):
+        sets = [c for c in walk_own(fn.node) if isinstance(c, ast.Call) and isinstance(c.func, ast.Attribute) and c.func.attr == "set" and tail(c.func.value) == "cfg" and len(c.args) == 2]
+
+        def probe_of(c):
+            def probe(ex, env):
+                k, v = ex.ev(c.args[0], env), ex.ev(c.args[1], env)
+                return (k, "None" if v is None else v) if isinstance(k, str) else UNKNOWN
+            return probe
+        probes = {nn.id: ("set@%d" % i, probe_of(c)) for i, c in enumerate(sets) for nn in nodes_with(fn, c)}
+
+        def at(e):
+            return extra_atom(e) or atom_of(e)
+        env = {"CLI_NS": SpecObj(config=None, args=()), "ENV_NS": SpecObj(config=None, args=()), "DEFAULT_LOCATION": None, src_key: mapping,
+               "self.cfg.settings": {"proc_name": 1, "accesslog": 1, "workers": 1}, "location": "gunicorn.conf.py"}
+        outs = Explorer(fn, atom_of=at, max_states=200000).run(fn.cfg.entry, env, probes=probes)
+        res = []
+        for o in outs:
+            if o.kind == "return":
+                res.append(set(v for nm, v in o.events if isinstance(nm, str) and nm.startswith("set@")))
+        return res
+    for label, fn, src_key, mapping, want, extra in (
+            ("framework mapping returned by init()", f, "FRAMEWORK", {"proc_name": None, "workers": 3}, {("proc_name", "None"), ("workers", 3)},
+             lambda e: "FRAMEWORK" if isinstance(e, ast.Call) and isinstance(e.func, ast.Attribute) and e.func.attr == "init" and tail(e.func.value) == "self" else None),
+            ("configuration file namespace", fl, "FILE_NS", {"accesslog": None, "workers": 3, "helper_name": 7}, {("accesslog", "None"), ("workers", 3)},
+             lambda e: "FILE_NS" if isinstance(e, ast.Call) and (repo.call_target(fl.module, fl, e) or "").rsplit(".", 1)[-1] in ("get_config_from_filename", "get_config_from_module_name") else None)):
+        res = run_source(fn, src_key, mapping, extra)
+        ctx.need(res, "C16.R3: no normal outcome of %s on a %s" % (fn.short, label))
+        for got in res:
+            known = set(x for x in got if x != "U")
+            # (load_config also runs the namespace loops, whose pairs are not known here: only this source's pairs count)
+            ctx.check("C16.R3", (known == want and "U" not in got) if fn is fl else (want <= known and all(x in want for x in known)), key(fn, "applies-every-pair|" + src_key), site(fn),
+                      "of the %s %r, %s applies %s; required %s (None is a value there, not 'not given'; names that are not settings are ignored)" % (
+                          label, mapping, fn.short, sorted(map(str, got)), sorted(map(str, want))), "applies %s" % sorted(map(str, want)))
     # framework-level writes happen before the other sources: no subclass writes a setting after the merge
     for ff in repo.funcs():
         if ff.name == "load_config" and ff.cls is not None and ff.qualname != APP + ".Application.load_config" and repo.is_subclass(ff.cls.qualname, APP + ".BaseApplication"):
